@@ -649,6 +649,62 @@ def run_where_representation(ctx):
             ctx.disagree('Wh.whereOp: the model\'s result is not well formed (PT.wf)', case, want, rep)
 
 
+def run_log_softmax_representation(ctx):
+    """log_softmax(dim): the model `It.alongDense` (dim_to_dense, then the function along the physical axis that carries the dimension,
+    unbacked cells = the function of a constant fibre of defaults) predicts the PATTERN of the result exactly and its physical values
+    and default through a floating-point log_softmax (1e-9 relative)"""
+    from .unifygen import canon
+    from .common import enc_ext
+    import struct
+    reqs, meta = [], []
+    def fl(bits):
+        return struct.unpack('<d', struct.pack('<Q', int(bits)))[0]
+    def close(a, b):
+        return (a != a and b != b) or a == b or (math.isfinite(a) and math.isfinite(b) and abs(a - b) <= 1e-9 * max(1.0, abs(a), abs(b)))
+    for k in range(40 if ctx.quick else 800):
+        nd = ctx.rng.choice([1, 1, 2, 2, 3])
+        types = [ptgen.random_type(ctx.rng, depth=ctx.rng.choice([1, 2, 2]), sizes=[1, 2, 3, 2, 4]) for _ in range(nd)]
+        if math.prod(ty_numel(t) for t in types) > 200:
+            continue
+        t = random_pt(ctx.rng, types, defaults=[0.0, 1.0, -math.inf, -1.0], specials=0.05)
+        if any(k_._numel == 0 for k_ in t.paxes):
+            continue
+        dim = ctx.rng.randrange(nd)
+        ids = {}
+        from fggs.indices import ProductAxis as _X
+        def ea(e, ids_):
+            if isinstance(e, PhysicalAxis): return f'P {ids_.setdefault(id(e), len(ids_))} {e._numel}'
+            if isinstance(e, _X): return 'X ' + enc_list(e.factors, lambda f: ea(f, ids_))
+            return f'S {e.before} {ea(e.term, ids_)} {e.after}'
+        et = (f'{enc_list(t.physical.contiguous().reshape(-1).tolist() if t.physical.numel() else [], enc_ext)} '
+              f'{enc_list(t.paxes, lambda k_: str(ids.setdefault(id(k_), len(ids))) + " " + str(k_._numel))} {enc_list(t.vaxes, lambda e: ea(e, ids))} {enc_ext(float(t.default))}')
+        case = dict(op='log_softmax', operand=et, dim=dim)
+        try:
+            r = t.log_softmax(dim)
+        except Exception as e:  # noqa
+            ctx.fail(f'log_softmax raised {type(e).__name__}: {str(e)[:80]}', case, repr(e), None, tags=['raises', 'log_softmax', type(e).__name__])
+            continue
+        ids2 = {}
+        pat = f'{enc_list(r.paxes, lambda k_: "P " + str(ids2.setdefault(id(k_), len(ids2))) + " " + str(k_._numel))} {enc_list(r.vaxes, lambda e: ea(e, ids2))}'
+        reqs.append(f'C06.logSoftmaxPattern {et} {dim} {len(ids) + 5}')
+        meta.append((case, pat, r.physical.contiguous().reshape(-1).tolist() if r.physical.numel() else [], float(r.default)))
+        ctx.count('log-softmax-representation')
+    for (case, pat, vals, dflt), rep in zip(meta, ctx.driver.ask_many(reqs)):
+        if isinstance(rep, Exception):
+            raise rep
+        ctx.evaluations += 1
+        if not rep.startswith('ok'):
+            ctx.disagree('It.alongDense: the model raises where log_softmax returns a tensor', case, 'ok', rep[:80]); continue
+        toks = rep.split()[1:]
+        L = int(toks[0]); mv = [fl(x) for x in toks[1:1 + L]]; i = 1 + L
+        P = int(toks[i]); pax = toks[i + 1:i + 1 + 2 * P]; i += 1 + 2 * P
+        mp = [str(P)] + sum((['P', pax[2 * j], pax[2 * j + 1]] for j in range(P)), []) + toks[i:-2]
+        if canon(mp) != canon(pat.split()) or toks[-1] != 'T':
+            ctx.disagree('It.alongDense: pattern of log_softmax(dim)', case, pat, ' '.join(mp)); continue
+        if len(mv) != len(vals) or not all(close(a, b) for a, b in zip(mv, vals)) or not close(fl(toks[-2]), dflt):
+            ctx.disagree('It.alongDense with a floating-point log_softmax: physical values / default', case, dict(vals=vals, default=dflt), dict(vals=mv, default=fl(toks[-2])))
+
+
 def run_unit_factors(ctx, reqs, meta):
     """index types with a factor of ONE element that is not the unit axis (a one-component sum `0 + () + 0`, as patterned JSON
     weights can spell it) at the start, in the middle or at the END of a product, each operand representing the same type in its own
@@ -753,6 +809,7 @@ def run(ctx):
     run_stack_representation(ctx)
     run_iter_representation(ctx)
     run_where_representation(ctx)
+    run_log_softmax_representation(ctx)
     reqs, meta = [], []
     run_unit_factors(ctx, reqs, meta)
     U, B = unary_ops(), binary_ops()
